@@ -42,20 +42,25 @@ Qed.
 Lemma dd_val : d * d = wx * wx + wy * wy + wz * wz - t * t.
 Proof. unfold d. rewrite sqrt_sqrt by apply XX_nonneg. apply XX_val. Qed.
 
+Ltac mod_unit M :=
+  match goal with
+  | |- ?P = ?Q => replace Q with (Q + M * ((ex * ex + ey * ey + ez * ez) - 1)) by (rewrite Hunit; ring); ring
+  end.
+
 Lemma A_o4 : (x1 + wx - (x1 + t * (x1 - (x1 - ex)))) * (x1 + wx - (x1 + t * (x1 - (x1 - ex)))) +
   (y1 + wy - (y1 + t * (y1 - (y1 - ey)))) * (y1 + wy - (y1 + t * (y1 - (y1 - ey)))) +
   (z1 + wz - (z1 + t * (z1 - (z1 - ez)))) * (z1 + wz - (z1 + t * (z1 - (z1 - ez)))) = d * d.
-Proof. rewrite dd_val. unfold t. nsatz. Qed.
+Proof. rewrite dd_val. unfold t. mod_unit ((wx * ex + wy * ey + wz * ez) * (wx * ex + wy * ey + wz * ez)). Qed.
 
 Lemma A_41 : (x1 + t * (x1 - (x1 - ex)) - x1) * (x1 + t * (x1 - (x1 - ex)) - x1) +
   (y1 + t * (y1 - (y1 - ey)) - y1) * (y1 + t * (y1 - (y1 - ey)) - y1) +
   (z1 + t * (z1 - (z1 - ez)) - z1) * (z1 + t * (z1 - (z1 - ez)) - z1) = t * t.
-Proof. generalize t. intros u. nsatz. Qed.
+Proof. generalize t. intros u. mod_unit (u * u). Qed.
 
 Lemma A_42 : (x1 + t * (x1 - (x1 - ex)) - (x1 - ex)) * (x1 + t * (x1 - (x1 - ex)) - (x1 - ex)) +
   (y1 + t * (y1 - (y1 - ey)) - (y1 - ey)) * (y1 + t * (y1 - (y1 - ey)) - (y1 - ey)) +
   (z1 + t * (z1 - (z1 - ez)) - (z1 - ez)) * (z1 + t * (z1 - (z1 - ez)) - (z1 - ez)) = (1 + t) * (1 + t).
-Proof. generalize t. intros u. nsatz. Qed.
+Proof. generalize t. intros u. mod_unit ((1 + u) * (1 + u)). Qed.
 
 Lemma A_o1 : (x1 + wx - x1) * (x1 + wx - x1) + (y1 + wy - y1) * (y1 + wy - y1) + (z1 + wz - z1) * (z1 + wz - z1)
   = t * t + d * d.
@@ -63,7 +68,31 @@ Proof. rewrite dd_val. ring. Qed.
 
 Lemma A_o2 : (x1 + wx - (x1 - ex)) * (x1 + wx - (x1 - ex)) + (y1 + wy - (y1 - ey)) * (y1 + wy - (y1 - ey)) +
   (z1 + wz - (z1 - ez)) * (z1 + wz - (z1 - ez)) = (1 + t) * (1 + t) + d * d.
-Proof. rewrite dd_val. unfold t. nsatz. Qed.
+Proof. rewrite dd_val. unfold t. mod_unit 1. Qed.
+
+Lemma C_0 : (y1 - ey - y1) * (z1 + wz - (z1 + t * (z1 - (z1 - ez)))) - (z1 - ez - z1) * (y1 + wy - (y1 + t * (y1 - (y1 - ey))))
+  = - ey * wz + ez * wy.
+Proof. generalize t. intros u. ring. Qed.
+Lemma C_1 : (z1 - ez - z1) * (x1 + wx - (x1 + t * (x1 - (x1 - ex)))) - (x1 - ex - x1) * (z1 + wz - (z1 + t * (z1 - (z1 - ez))))
+  = - ez * wx + ex * wz.
+Proof. generalize t. intros u. ring. Qed.
+Lemma C_2 : (x1 - ex - x1) * (y1 + wy - (y1 + t * (y1 - (y1 - ey)))) - (y1 - ey - y1) * (x1 + wx - (x1 + t * (x1 - (x1 - ex))))
+  = - ex * wy + ey * wx.
+Proof. generalize t. intros u. ring. Qed.
+
+Lemma norm_online : d < 1 / 1000000000000000 ->
+  snd (polyline_norm NumR qo q1 q2 L cur) = (0, 0, 0).
+Proof.
+  intros Hlt.
+  unfold polyline_norm, q1, q2, qo.
+  cbv beta iota zeta delta [vsub vadd vscale vdivs vdot vnorm vcross sq zero3 c0 c1 c2 c3 c4 cpi e15
+       NumR carrier nadd nsub nmul ndiv nopp nsqrt nabs nltb neqb nofZ npi].
+  replace ((x1 + wx - x1) * (x1 - (x1 - ex)) + (y1 + wy - y1) * (y1 - (y1 - ey)) + (z1 + wz - z1) * (z1 - (z1 - ez)))
+    with t by (unfold t; ring).
+  rewrite A_o4. rewrite (sqrt_square d) by (unfold d; apply sqrt_pos).
+  assert (E : Rltb d (1 / 1000000000000000) = true) by (apply Rltb_true; exact Hlt).
+  rewrite E. reflexivity.
+Qed.
 
 Hypothesis Hd : 1 / 1000000000000000 <= d.
 
@@ -81,6 +110,242 @@ Proof.
   (* t *)
   replace ((x1 + wx - x1) * (x1 - (x1 - ex)) + (y1 + wy - y1) * (y1 - (y1 - ey)) + (z1 + wz - z1) * (z1 - (z1 - ez)))
     with t by (unfold t; ring).
-  Show.
-Abort.
+  rewrite A_o4, A_41, A_42, A_o1, A_o2.
+  rewrite (sqrt_square d) by lra. rewrite !sqrt_sq_abs.
+  rewrite C_0, C_1, C_2.
+  replace (sqrt ((- ey * wz + ez * wy) * (- ey * wz + ez * wy) + (- ez * wx + ex * wz) * (- ez * wx + ex * wz) +
+                 (- ex * wy + ey * wx) * (- ex * wy + ey * wx))) with d by reflexivity.
+  assert (E : Rltb d (1 / 1000000000000000) = false) by (apply Rltb_false; exact Hd).
+  rewrite E. unfold deltaSin_code, Rvscale, X. cbv [snd].
+  apply triple_eq; field; repeat split; lra.
+Qed.
 End Norm.
+
+(* ---- from (o, p1, p2) to the normalised variables *)
+Section Seg.
+Variables (ox oy oz ax ay az bx by_ bz cur : R).
+Let o : RV3 := (ox, oy, oz).
+Let p1 : RV3 := (ax, ay, az).
+Let p2 : RV3 := (bx, by_, bz).
+Hypothesis Hp : p1 <> p2.
+
+Let S := (ax - bx) * (ax - bx) + (ay - by_) * (ay - by_) + (az - bz) * (az - bz).
+Let L := sqrt S.
+Let ex := ax / L - bx / L.  Let ey := ay / L - by_ / L.  Let ez := az / L - bz / L.
+Let wx := ox / L - ax / L.  Let wy := oy / L - ay / L.  Let wz := oz / L - az / L.
+Let t := wx * ex + wy * ey + wz * ez.
+Let Xn : RV3 := (- ey * wz + ez * wy, - ez * wx + ex * wz, - ex * wy + ey * wx).
+Let d := sqrt (Rdot Xn Xn).
+
+Lemma S_pos : 0 < S.
+Proof.
+  unfold S. assert (Hn : (ax - bx, ay - by_, az - bz) <> (0, 0, 0)).
+  { intros E. inversion E. apply Hp. unfold p1, p2. f_equal; [f_equal|]; lra. }
+  apply sumsq_pos in Hn. exact Hn.
+Qed.
+Lemma L_pos : 0 < L.
+Proof. apply sqrt_lt_R0, S_pos. Qed.
+Lemma LL : L * L = S.
+Proof. apply sqrt_sqrt. pose proof S_pos. lra. Qed.
+
+Lemma e_unit : ex * ex + ey * ey + ez * ez = 1.
+Proof.
+  pose proof L_pos as HL. pose proof S_pos as HS.
+  unfold ex, ey, ez.
+  replace ((ax / L - bx / L) * (ax / L - bx / L) + (ay / L - by_ / L) * (ay / L - by_ / L) +
+           (az / L - bz / L) * (az / L - bz / L)) with (S / (L * L)) by (unfold S; field; lra).
+  rewrite LL. field. lra.
+Qed.
+
+Lemma segX_scaled : segX o p1 p2 = Rvscale (L * L) Xn.
+Proof.
+  pose proof L_pos as HL.
+  unfold segX, o, p1, p2, Rcross, Rvsub, Rvscale, Xn, ex, ey, ez, wx, wy, wz.
+  apply triple_eq; field; lra.
+Qed.
+
+Lemma segXX : Rdot (segX o p1 p2) (segX o p1 p2) = (L * L) * (L * L) * (d * d).
+Proof.
+  rewrite segX_scaled. unfold d. rewrite sqrt_sqrt by apply XX_nonneg.
+  unfold Rvscale, Rdot, Xn. ring.
+Qed.
+
+Lemma norm_segX : Rnorm (segX o p1 p2) = L * L * d.
+Proof.
+  pose proof L_pos as HL.
+  unfold Rnorm. rewrite segXX.
+  assert (Hd0 : 0 <= d) by (unfold d; apply sqrt_pos).
+  replace (L * L * (L * L) * (d * d)) with ((L * L * d) * (L * L * d)) by ring.
+  apply sqrt_square. apply Rmult_le_pos; [nra | exact Hd0].
+Qed.
+
+Lemma segA_val : segA o p1 p2 = L * L.
+Proof. rewrite LL. unfold segA, S, o, p1, p2, Rdot, Rvsub. ring. Qed.
+
+Lemma segB_val : segB o p1 p2 = 2 * (L * L) * t.
+Proof.
+  pose proof L_pos as HL.
+  unfold segB, o, p1, p2, Rdot, Rvsub, t, ex, ey, ez, wx, wy, wz. field. lra.
+Qed.
+
+Lemma ww_val : wx * wx + wy * wy + wz * wz = t * t + d * d.
+Proof. unfold d, Xn. rewrite (dd_val ex ey ez wx wy wz e_unit). fold t. ring. Qed.
+
+Lemma segC_val : segC o p1 p2 = (L * L) * (t * t + d * d).
+Proof.
+  pose proof L_pos as HL.
+  rewrite <- ww_val. unfold segC, o, p1, p2, Rdot, Rvsub, wx, wy, wz. field. lra.
+Qed.
+
+Lemma model_online : Rnorm (segX o p1 p2) < 1 / 1000000000000000 * segA o p1 p2 ->
+  polyline_H NumR o p1 p2 cur = (0, 0, 0).
+Proof.
+  intros Hon. pose proof L_pos as HL.
+  rewrite segA_val, norm_segX in Hon.
+  assert (HLL : 0 < L * L) by (apply Rmult_lt_0_compat; lra).
+  assert (Hlt : d < 1 / 1000000000000000).
+  { apply (Rmult_lt_reg_l (L * L)); [assumption|]. lra. }
+  unfold polyline_H, polyline_H_br.
+  assert (Hne : veqb NumR p1 p2 = false).
+  { unfold veqb, p1, p2. cbv [NumR neqb].
+    destruct (Reqb ax bx) eqn:E1; destruct (Reqb ay by_) eqn:E2; destruct (Reqb az bz) eqn:E3; try reflexivity.
+    exfalso. apply Reqb_true in E1. apply Reqb_true in E2. apply Reqb_true in E3.
+    apply Hp. unfold p1, p2. subst. reflexivity. }
+  rewrite Hne.
+  replace (vnorm NumR (vsub NumR p1 p2)) with L by reflexivity.
+  replace (vdivs NumR p1 L) with (ax / L, ay / L, az / L) by reflexivity.
+  replace (vdivs NumR p2 L) with (ax / L - ex, ay / L - ey, az / L - ez)
+    by (unfold p2, vdivs, ex, ey, ez; cbv [NumR ndiv carrier]; apply triple_eq; ring).
+  replace (vdivs NumR o L) with (ax / L + wx, ay / L + wy, az / L + wz)
+    by (unfold o, vdivs, wx, wy, wz; cbv [NumR ndiv carrier]; apply triple_eq; ring).
+  apply (norm_online (ax / L) (ay / L) (az / L) ex ey ez wx wy wz L cur e_unit Hlt).
+Qed.
+
+Hypothesis Hoff : 1 / 1000000000000000 * segA o p1 p2 <= Rnorm (segX o p1 p2).
+
+Lemma d_ge : 1 / 1000000000000000 <= d.
+Proof.
+  pose proof L_pos as HL. rewrite segA_val, norm_segX in Hoff.
+  assert (0 < L * L) by nra.
+  apply (Rmult_le_reg_l (L * L)); [assumption|]. lra.
+Qed.
+
+Lemma model_value :
+  polyline_H NumR o p1 p2 cur = Rvscale (deltaSin_code t d / (d * d) / L * cur / (4 * PI)) Xn.
+Proof.
+  pose proof L_pos as HL.
+  unfold polyline_H, polyline_H_br.
+  assert (Hne : veqb NumR p1 p2 = false).
+  { unfold veqb, p1, p2. cbv [NumR neqb].
+    destruct (Reqb ax bx) eqn:E1; destruct (Reqb ay by_) eqn:E2; destruct (Reqb az bz) eqn:E3; try reflexivity.
+    exfalso. apply Reqb_true in E1. apply Reqb_true in E2. apply Reqb_true in E3.
+    apply Hp. unfold p1, p2. subst. reflexivity. }
+  rewrite Hne.
+  replace (vnorm NumR (vsub NumR p1 p2)) with L by reflexivity.
+  replace (vdivs NumR p1 L) with (ax / L, ay / L, az / L) by reflexivity.
+  replace (vdivs NumR p2 L) with (ax / L - ex, ay / L - ey, az / L - ez)
+    by (unfold p2, vdivs, ex, ey, ez; cbv [NumR ndiv carrier]; apply triple_eq; ring).
+  replace (vdivs NumR o L) with (ax / L + wx, ay / L + wy, az / L + wz)
+    by (unfold o, vdivs, wx, wy, wz; cbv [NumR ndiv carrier]; apply triple_eq; ring).
+  apply (norm_spec (ax / L) (ay / L) (az / L) ex ey ez wx wy wz L cur e_unit HL d_ge).
+Qed.
+
+(* F 1 - F 0 in the normalised variables *)
+Lemma FF_diff :
+  FF (segA o p1 p2) (segB o p1 p2) (segC o p1 p2) 1 - FF (segA o p1 p2) (segB o p1 p2) (segC o p1 p2) 0
+  = deltaSin_code t d / (L * L * L * (d * d)).
+Proof.
+  pose proof L_pos as HL. pose proof d_ge as Hd.
+  assert (Hdp : 0 < d) by lra.
+  rewrite (deltaSin_code_spec t d Hdp).
+  assert (Hdd : 0 < d * d) by (apply Rmult_lt_0_compat; lra).
+  pose proof (Rle_0_sqr t) as Ht2. pose proof (Rle_0_sqr (1 + t)) as Ht3. unfold Rsqr in Ht2, Ht3.
+  assert (Hn1 : 0 < sqrt (t * t + d * d)) by (apply sqrt_lt_R0; lra).
+  assert (Hn2 : 0 < sqrt ((1 + t) * (1 + t) + d * d)) by (apply sqrt_lt_R0; lra).
+  unfold FF, qq. rewrite segA_val, segB_val, segC_val.
+  replace (L * L * 0 * 0 + 2 * (L * L) * t * 0 + L * L * (t * t + d * d)) with ((L * L) * (t * t + d * d)) by ring.
+  replace (L * L * 1 * 1 + 2 * (L * L) * t * 1 + L * L * (t * t + d * d))
+    with ((L * L) * ((1 + t) * (1 + t) + d * d)) by ring.
+  rewrite (sqrt_mult (L * L) (t * t + d * d)) by nra.
+  rewrite (sqrt_mult (L * L) ((1 + t) * (1 + t) + d * d)) by nra.
+  rewrite (sqrt_square L) by lra.
+  set (n1 := sqrt (t * t + d * d)) in *. set (n2 := sqrt ((1 + t) * (1 + t) + d * d)) in *.
+  field. repeat split; try lra.
+  replace (4 * (L * L) * (L * L * (t * t + d * d)) - 2 * (L * L) * t * (2 * (L * L) * t))
+    with (4 * ((L * L) * (L * L) * (d * d))) by ring.
+  assert (HLL : 0 < L * L) by (apply Rmult_lt_0_compat; lra).
+  assert (HL4 : 0 < (L * L) * (L * L)) by (apply Rmult_lt_0_compat; lra).
+  assert (H6 : 0 < (L * L) * (L * L) * (d * d)) by (apply Rmult_lt_0_compat; lra).
+  lra.
+Qed.
+
+Lemma offline_pos : 0 < Rdot (segX o p1 p2) (segX o p1 p2).
+Proof.
+  pose proof L_pos as HL. pose proof d_ge as Hd. rewrite segXX.
+  assert (HLL : 0 < L * L) by (apply Rmult_lt_0_compat; lra).
+  assert (Hdd : 0 < d * d) by (apply Rmult_lt_0_compat; lra).
+  repeat apply Rmult_lt_0_compat; lra.
+Qed.
+
+Lemma polyline_is_biot_savart_coords (i : nat) :
+  is_RInt (bs_segment_integrand cur o p1 p2 i) 0 1 (comp i (polyline_H NumR o p1 p2 cur)).
+Proof.
+  pose proof L_pos as HL. pose proof d_ge as Hd. pose proof PI_RGT_0 as Hpi.
+  assert (Hdp : 0 < d) by lra.
+  replace (comp i (polyline_H NumR o p1 p2 cur))
+    with (cur / (4 * PI) * comp i (segX o p1 p2) *
+          (FF (segA o p1 p2) (segB o p1 p2) (segC o p1 p2) 1 - FF (segA o p1 p2) (segB o p1 p2) (segC o p1 p2) 0)).
+  - apply segment_biot_savart_closed; [exact Hp | exact offline_pos].
+  - rewrite FF_diff, model_value, segX_scaled.
+    unfold Rvscale, Xn, comp. destruct i as [|[|i]]; field; repeat split; lra.
+Qed.
+End Seg.
+
+(* ---- the theorem on vectors *)
+Lemma polyline_segment_is_biot_savart (cur : R) (o p1 p2 : RV3) (i : nat) :
+  p1 <> p2 ->
+  1 / 1000000000000000 * segA o p1 p2 <= Rnorm (segX o p1 p2) ->
+  is_RInt (bs_segment_integrand cur o p1 p2 i) 0 1 (comp i (polyline_H NumR o p1 p2 cur)).
+Proof.
+  destruct o as [[ox oy] oz], p1 as [[ax ay] az], p2 as [[bx by_] bz]. intros Hp Hoff.
+  apply polyline_is_biot_savart_coords; assumption.
+Qed.
+
+(* observer ON the supporting line (in particular on the extension of the segment): the cross product
+   in the Biot-Savart integrand vanishes identically, the integral is 0, and the model's on-line mask
+   returns 0.  (On the segment itself the integrand is 0/0, which is 0 in Coq: no claim is made there.) *)
+Lemma polyline_on_line_is_biot_savart (cur : R) (o p1 p2 : RV3) (i : nat) :
+  p1 <> p2 -> segX o p1 p2 = (0, 0, 0) ->
+  is_RInt (bs_segment_integrand cur o p1 p2 i) 0 1 (comp i (polyline_H NumR o p1 p2 cur)).
+Proof.
+  intros Hp HX.
+  assert (HA : 0 < segA o p1 p2) by (apply segA_pos; exact Hp).
+  assert (Hm : polyline_H NumR o p1 p2 cur = (0, 0, 0)).
+  { destruct o as [[ox oy] oz], p1 as [[ax ay] az], p2 as [[bx by_] bz].
+    apply model_online; [exact Hp|].
+    rewrite HX. unfold Rnorm, Rdot. replace (0 * 0 + 0 * 0 + 0 * 0) with 0 by ring. rewrite sqrt_0. lra. }
+  rewrite Hm.
+  replace (comp i (0, 0, 0)) with (scal (1 - 0) 0) by (destruct i as [|[|i]]; unfold scal; simpl; unfold mult; simpl; ring).
+  apply (is_RInt_ext (fun _ => 0)).
+  - intros s _. unfold bs_segment_integrand.
+    destruct o as [[ox oy] oz], p1 as [[ax ay] az], p2 as [[bx by_] bz].
+    assert (Hx : comp i (Rcross (Rvsub (bx, by_, bz) (ax, ay, az))
+                   (Rvsub (ox, oy, oz) (Rvadd (ax, ay, az) (Rvscale s (Rvsub (bx, by_, bz) (ax, ay, az))))))
+                 = comp i (segX (ox, oy, oz) (ax, ay, az) (bx, by_, bz))).
+    { unfold segX, Rcross, Rvsub, Rvadd, Rvscale, comp. destruct i as [|[|i]]; ring. }
+    rewrite Hx, HX. replace (comp i (0, 0, 0)) with 0 by (destruct i as [|[|i]]; reflexivity).
+    unfold Rdiv. rewrite Rmult_0_r, Rmult_0_l. reflexivity.
+  - apply (@is_RInt_const R_CompleteNormedModule).
+Qed.
+
+(* the general branch is taken exactly under that hypothesis (so the statement is not vacuous and
+   not weaker than the code's own case split) *)
+Lemma polyline_nonvacuous :
+  (0, 0, 0) <> (1, 0, 0) /\ 1 / 1000000000000000 * segA (0, 1, 0) (0, 0, 0) (1, 0, 0) <= Rnorm (segX (0, 1, 0) (0, 0, 0) (1, 0, 0)).
+Proof.
+  split.
+  - intros H. inversion H. lra.
+  - unfold segA, segX, Rnorm, Rdot, Rcross, Rvsub.
+    match goal with |- _ <= sqrt ?x => replace x with 1 by ring end.
+    rewrite sqrt_1. lra.
+Qed.
